@@ -12,6 +12,13 @@ sb = os.path.abspath(sys.argv[1]); patch = os.path.abspath(sys.argv[2]); props =
 repo = os.path.join(sb, "repo"); verif = os.path.join(sb, "verif")
 env = dict(os.environ, VERIF_REPO=repo)
 sh(["git", "checkout", "--", "."], cwd=repo)
+# a seeded change is a diff against the /repo commit it was written for (meta.json `base_commit`)
+try:
+    base = json.load(open(os.path.join(os.path.dirname(patch), "meta.json"))).get("base_commit")
+except Exception:
+    base = None
+if base:
+    sh(["git", "checkout", "-q", "--detach", base], cwd=repo)
 rc, out = sh(["git", "apply", patch], cwd=repo)
 if rc != 0:
     print("PATCH DOES NOT APPLY:", out[-400:]); sys.exit(2)
